@@ -669,6 +669,9 @@ impl RocksDBStateMachine {
         // records. (Reading the in-memory index after the iteration reported a revision newer than
         // the entries when a chunk was applied in between; clients skipping events <= revision then
         // lose that update.)
+        // (fallback for a store that has never applied a chunk: the in-memory index as of *before*
+        // the snapshot, never one that may already cover a later chunk)
+        let index_before_snapshot = self.last_applied_index.load(Ordering::SeqCst);
         let snap = db.snapshot();
         opts.set_snapshot(&snap);
         let snapshot_revision = db
@@ -688,9 +691,7 @@ impl RocksDBStateMachine {
         #[cfg(feature = "__verif")]
         d_engine_core::verif_hooks::yield_point("sm.scan.before_revision");
 
-        // (a store that has never applied a chunk has no persisted index yet)
-        let revision =
-            snapshot_revision.unwrap_or_else(|| self.last_applied_index.load(Ordering::SeqCst));
+        let revision = snapshot_revision.unwrap_or(index_before_snapshot);
         Ok(ScanResult { entries, revision })
     }
 
